@@ -34,7 +34,8 @@ RULE = (
     "{0,1,2} x n_jobs in {None,1,2,4} (threading backend) and pickle round trip give equal "
     "results. kind=order: at every runnable Parallel call site every task order (k<=4 all k!, "
     "else <=2 inversions + reverse; one deviating call at a time among the first 6 multi-task "
-    "calls of the site, thorough: among all (<=128) and two deviating calls) under the owned "
+    "calls of the site, thorough: among all (<=128), and two deviating calls among the first 12) "
+    "under the owned "
     "joblib backend equals the sequential result. kind=interleave: two real threads running two "
     "captured tasks under a line-event baton, every schedule with <=1 (thorough <=2, capped) "
     "preemption; each task's result must equal its sequential result. states = executed "
@@ -260,8 +261,10 @@ def gen_cases(tier, seed):
             yield dict(kind="order", site=site, dev=1, call=cno, lim=6 if tier == "quick" else 128)
         if tier != "quick":
             # two deviating calls, sharded by the first of them
-            for cno in range(128):
-                yield dict(kind="order", site=site, dev=2, call=None, pair_first=cno, lim=128)
+            # (pairs among the first 12 multi-task calls of the site: 66 pairs x order pairs)
+            for cno in range(11):
+                yield dict(kind="order", site=site, dev=2, call=None, pair_first=cno, lim=128,
+                           pair_limit=12)
     pairs = [(0, 1)] if tier == "quick" else [(0, 1), (0, 2), (1, 2)]
     small = ["tsf_fit", "tsf_proba", "tsfr_predict", "ens_fit"]      # 60-75 points per task
     big = ["stsf_fit", "rise_fit", "boss_predict"]                   # 1 000-6 000 points per task
@@ -854,7 +857,8 @@ def _order(case, res):
     sizes = None
     for schedule, calls, (ok, val) in sched.explore_orders(thunk, deviations=case["dev"],
                                                            only_call=case.get("call"),
-                                                           pair_first=case.get("pair_first")):
+                                                           pair_first=case.get("pair_first"),
+                                                           pair_limit=case.get("pair_limit")):
         n += 1
         res.transitions += 1
         sizes = calls if sizes is None else sizes
